@@ -126,7 +126,7 @@ def run_property(prop, tier, seed, rebaseline=False, only_units=None):
         meta = kani_unit.load_meta(crate)
         hs = []
         for h in meta['harnesses']:
-            if prop not in h.get('properties', [prop]) and h.get('property', prop) != prop:
+            if prop not in h.get('properties', [prop]):
                 continue
             if tier == 'quick' and h.get('tier', 'quick') != 'quick':
                 continue
